@@ -1,16 +1,29 @@
-// C04: attacker-chosen SEIPDv2 parameter octets (every value of the cipher, AEAD and chunk-size octets)
-// with a session key of the right length: setting up the decryptor returns Ok or Err, never panics.
+// C04: attacker-chosen SEIPDv2 parameter octets with a session key of the right length: setting up the
+// decryptor returns Ok or Err, never panics.  The AEAD octet is concrete per instance (classes: None=0,
+// EAX/OCB/GCM=1..3, Other=4/200, Private=100) — a symbolic enum variant makes CBMC explore every arm;
+// cipher octet: AES128/AES256 instances; chunk-size octet symbolic.  SHA-256 compression is a no-op (HKDF value irrelevant).
 #![allow(unused, dead_code)]
 use super::__verif_common::*;
 use crate::crypto::aead::{AeadAlgorithm, ChunkSize, StreamDecryptor};
 use crate::crypto::sym::SymmetricKeyAlgorithm;
 
-vproof!(c04_seipdv2_header_octets, 70, {
-    let sym: u8 = kani::any();
-    let aead: u8 = kani::any();
+pub fn stub_compress(_state: &mut [u32; 8], _blocks: &[generic_array::GenericArray<u8, generic_array::typenum::U64>]) {}
+
+macro_rules! hproof {
+    ($name:ident, $uw:expr, $body:block) => {
+        #[kani::proof]
+        #[kani::unwind($uw)]
+        #[kani::stub(std::fmt::format, crate::__verif_common::stub_format)]
+        #[kani::stub(snafu::backtrace_collection_enabled, crate::__verif_common::stub_bt)]
+        #[kani::stub(sha2::sha256::compress256, stub_compress)]
+        fn $name() $body
+    };
+}
+
+fn header_case<const AEAD: u8, const SYM: u8>() {
     let cs: u8 = kani::any();
-    let sym_alg = SymmetricKeyAlgorithm::from(sym);
-    let aead_alg = AeadAlgorithm::from(aead);
+    let sym_alg = SymmetricKeyAlgorithm::from(SYM);
+    let aead_alg = AeadAlgorithm::from(AEAD);
     let chunk = match ChunkSize::try_from(cs) {
         Ok(c) => c,
         Err(e) => {
@@ -21,14 +34,22 @@ vproof!(c04_seipdv2_header_octets, 70, {
     // the reader checks that the session key length matches the cipher before constructing the decryptor
     let key = [0x42u8; 32];
     let ks = sym_alg.key_size();
-    kani::assume(ks <= 32);
     let salt = [7u8; 32];
     let data = [0u8; 4];
-    kani::cover!(aead == 0, "AEAD octet without nonce size");
-    kani::cover!(aead == 2 && sym == 7, "OCB/AES128");
     let r = okf(StreamDecryptor::new_rfc9580(sym_alg, aead_alg, chunk, &salt, &key[..ks], &data[..]));
-    if let Some(d) = r {
-        assert!(aead >= 1 && aead <= 3, "C15/C04: decryptor constructed for an AEAD id that RFC 9580 does not define");
-        core::mem::forget(d);
+    kani::cover!(cs == 16, "largest chunk size");
+    match r {
+        Some(d) => {
+            assert!(AEAD >= 1 && AEAD <= 3, "C15/C04: decryptor constructed for an AEAD id that RFC 9580 does not define");
+            core::mem::forget(d);
+        }
+        None => assert!(!(AEAD >= 1 && AEAD <= 3) , "C01: decryptor refused a defined AEAD mode"),
     }
-});
+}
+hproof!(c04_seipdv2_aead0, 70, { header_case::<0, 7>() });
+hproof!(c04_seipdv2_aead1, 70, { header_case::<1, 7>() });
+hproof!(c04_seipdv2_aead2, 70, { header_case::<2, 9>() });
+hproof!(c04_seipdv2_aead3, 70, { header_case::<3, 7>() });
+hproof!(c04_seipdv2_aead4, 70, { header_case::<4, 7>() });
+hproof!(c04_seipdv2_aead100, 70, { header_case::<100, 9>() });
+hproof!(c04_seipdv2_aead200, 70, { header_case::<200, 7>() });
